@@ -25,7 +25,7 @@ def shards(tier, seed):
     n = 16
     q = tier == 'quick'
     out = [{'name': 's%d' % i, 'i': i,
-             'frames': 14 if q else 220, 'values': 8 if q else 255,
+             'frames': 14 if q else 60, 'values': 8 if q else 255,
              'max_positions': 160 if q else 400, 'tag_sweep': 0.3,
              'rand': 300 if q else 6000,
              'deep': [16, 32, 64] if i == 1 else [],
